@@ -580,3 +580,38 @@ Definition rsa_pkcs8_import (data : bytes) : option (list Z) :=
       end
   | Err _ => None
   end.
+
+(* ------------------------------------------------------------------------------------------- *)
+(* a key's comment is an option: String(self._comment or b'') on export, `comment or None` in
+   set_comment on import.  The file name a key was read from (SSHKey._filename) is not part of any
+   exported byte. *)
+Definition comment_field (c : option bytes) : bytes := match c with Some c => c | None => [] end.
+Definition set_comment (b : bytes) : option bytes := match b with [] => None | _ => Some b end.
+
+(* ------------------------------------------------------------------------------------------- *)
+(* pbe._pbes2_pbkdf2: the PBKDF2-params of RFC 8018 A.2
+     SEQUENCE { salt OCTET STRING, iterationCount INTEGER, keyLength INTEGER OPTIONAL,
+                prf AlgorithmIdentifier DEFAULT hmacWithSHA1 }
+   kdf_params = what follows the KDF OID.  Result: salt, count, key size, PRF OID. *)
+Definition HMAC_SHA1_OID : list Z := [1; 2; 840; 113549; 2; 7].
+
+Definition pbkdf2_params (known_prf : list Z -> bool) (default_key_size : Z) (kdf_params : list value)
+  : option (bytes * Z * Z * list Z) :=
+  match kdf_params with
+  | [VSeq (VOctets salt :: c :: rest)] =>
+      match as_int c with
+      | None => None
+      | Some count =>
+          let '(ks, rest') :=
+            match rest with
+            | v :: r => match as_int v with Some k => (k, r) | None => (default_key_size, rest) end
+            | [] => (default_key_size, [])
+            end in
+          match rest' with
+          | [] => Some (salt, count, ks, HMAC_SHA1_OID)
+          | VSeq [VOid prf; _] :: _ => if known_prf prf then Some (salt, count, ks, prf) else None
+          | _ => None
+          end
+      end
+  | _ => None
+  end.
